@@ -219,6 +219,7 @@ func Setup() {}`)
 				fmt.Sprintf(`hp.Rec("g%d.res.0", "int", a%d)`, i/2, i/2), fmt.Sprintf(`hp.Rec("g%d.res.1", "string", b%d)`, i/2, i/2))
 		}
 	}
+	s.decls = append(s.decls, "func Spin() { for {} }") // evaluated under a deadline when the case asks for a cancelled evaluation
 	return s.source()
 }
 
@@ -558,6 +559,16 @@ func implRetain(c *Case, env *nativeEnv) outcome {
 				return "typeassert-failed:" + fv.Type().String()
 			}
 		}
+		if c.AfterCancel {
+			// a later evaluation is cancelled: the function value the host holds (made by Eval / Symbols: no epoch; registered by
+			// Setup: the epoch of that completed evaluation) must go on working
+			cctx, cancel := context.WithTimeout(ctx, 30*time.Millisecond)
+			_, cerr := i.EvalWithContext(cctx, "main.Spin()")
+			cancel()
+			if cerr == nil {
+				return "cancelled-evaluation-returned"
+			}
+		}
 		if c.Caller == "script" {
 			if _, err := i.EvalWithContext(ctx, "main.Run()"); err != nil {
 				return errStatus(err)
@@ -576,6 +587,7 @@ func (g *genCfg) genRetainCase(id string) *Case {
 	c.Via = []string{"callback", "eval-qual", "eval-plain", "symbols"}[r.Intn(4)]
 	c.Caller = "host"
 	c.Ks = []int64{int64(2 + r.Intn(7)), int64(r.Intn(50) - 10)}
+	c.AfterCancel = r.Intn(4) == 0
 	iv := func() *Val { return &Val{T: typeByID("int"), I: int64(r.Intn(2000) - 1000)} }
 	sv := func() *Val { return &Val{T: typeByID("string"), S: []string{"", "a", "go", "yaegi", "q"}[r.Intn(5)]} }
 	switch c.Mode {
